@@ -58,16 +58,159 @@ Proof.
   intro T. unfold total.
   destruct (evs_trans s l s' x T) as [E Dr _|c e t0 sub0 fs0 todo rest El Hpc Hm _ E _ _ Dr|c e t0 sub0 fs0 todo rest El Hpc Hm _ E _ _ Dr|rest _ _ E _ _ Dr].
   - left. rewrite E, Dr. lia.
-  - rewrite E, Dr, count_occ_b_app. cbn [count_occ_b is_copy].
+  - rewrite E, Dr, count_occ_b_app. cbn [count_occ_b].
+    change (is_copy sub t (MEvent sub0 e t0)) with (str_eqb sub sub0 && ptag_eqb t t0).
     destruct (str_eqb sub sub0 && ptag_eqb t t0) eqn:B.
     + right. apply andb_true_iff in B as [B1 B2]. apply str_eqb_eq in B1. apply ptag_eqb_eq in B2. subst sub0 t0.
       exists c, e, todo, rest, fs0. repeat split; auto. lia.
     + left. lia.
-  - rewrite E, Dr, count_occ_b_app. cbn [count_occ_b is_drop fst snd].
+  - rewrite E, Dr, count_occ_b_app. cbn [count_occ_b].
+    change (is_drop sub t (sub0, e, t0)) with (str_eqb sub sub0 && ptag_eqb t t0).
     destruct (str_eqb sub sub0 && ptag_eqb t t0) eqn:B.
     + right. apply andb_true_iff in B as [B1 B2]. apply str_eqb_eq in B1. apply ptag_eqb_eq in B2. subst sub0 t0.
       exists c, e, todo, rest, fs0. repeat split; auto. lia.
     + left. lia.
   - left. rewrite E, Dr. rewrite evs_split, !count_occ_b_app.
     pose proof (count_le_incl_filter (is_copy sub t) is_event_msg (c_out (r_cs s x))). lia.
+Qed.
+
+(** with the control invariant the sender of a copy tagged (p, n) is p *)
+Lemma total_trans_p s l s' x sub p n :
+  Inv s -> trans s l s' ->
+  (total (r_cs s' x) sub (p, n) <= total (r_cs s x) sub (p, n))%nat \/
+  (l = LRun p /\ exists e todo rest fs,
+      c_pc (r_cs s p) = IVisit e (p, n) x ((sub, fs) :: todo) :: rest /\
+      total (r_cs s' x) sub (p, n) = S (total (r_cs s x) sub (p, n))).
+Proof.
+  intros I T. destruct (total_trans s l s' x sub (p, n) T) as [H|(c & e & todo & rest & fs & El & Hpc & E)]; [now left|].
+  right. pose proof (inv_pc s I c) as P. rewrite Hpc in P.
+  destruct (pc_ok_inv_visit _ _ _ _ _ _ _ P) as (n' & rem & id & Et & _). inversion Et; subst c n'.
+  split; [assumption|]. eauto 6.
+Qed.
+
+Lemma in_map_fst {A B} (k : A) (v : B) l : In (k, v) l -> In k (List.map fst l).
+Proof. intro H. change k with (fst (k, v)). now apply in_map. Qed.
+
+Theorem OInv_trans s l s' : Inv s -> DInv s -> OInv s -> trans s l s' -> OInv s'.
+Proof.
+  intros I D O T.
+  assert (Hact : forall c p, label_of_conn p (LRun c) = true -> p = c)
+    by (intros c p H; cbn in H; now apply Nat.eqb_eq in H).
+  constructor.
+  - (* at most once *)
+    intros x sub [p n].
+    destruct (total_trans_p s l s' x sub p n I T) as [H|(_ & e & todo & rest & fs & Hpc & E)].
+    + pose proof (o_once s O x sub (p, n)). lia.
+    + rewrite E. rewrite (o_visit s O p e n x _ rest sub Hpc); [lia | now left].
+  - (* entries still to be handed over have no copy yet *)
+    intros p e n x todo rest sub Hpc' Hin.
+    destruct (label_of_conn p l) eqn:Hl.
+    + inversion T; subst; cbn [label_of_conn] in Hl; try discriminate;
+        try (apply Hact in Hl; subst p); cbn [r_cs with_cs] in Hpc'; rewrite ?upd_same in Hpc'; cbn in Hpc'.
+      * (* op *) destruct o; cbn in Hpc'; try discriminate; destruct (reg_get c (r_reg s)); discriminate.
+      * pose proof (inv_pc s I c) as P. rewrite H in P. destruct (pc_ok_inv_regadd _ _ _ P) as (? & ? & -> & _). discriminate.
+      * pose proof (inv_pc s I c) as P. rewrite H in P. destruct (pc_ok_inv_subadd _ _ _ _ _ P) as (-> & _). discriminate.
+      * pose proof (inv_pc s I c) as P. rewrite H in P. destruct (pc_ok_inv_subadd _ _ _ _ _ P) as (-> & _). discriminate.
+      * pose proof (inv_pc s I c) as P. rewrite H in P. rewrite (pc_ok_inv_subdel _ _ _ _ P) in Hpc'. discriminate.
+      * pose proof (inv_pc s I c) as P. rewrite H in P. rewrite (pc_ok_inv_subdel _ _ _ _ P) in Hpc'. discriminate.
+      * pose proof (inv_pc s I c) as P. rewrite H in P.
+        destruct i; cbn in H0; try contradiction.
+        -- destruct (pc_ok_inv_eose _ _ _ _ P) as [-> _]. discriminate.
+        -- rewrite (pc_ok_inv_count _ _ _ _ P) in Hpc'. discriminate.
+        -- rewrite (pc_ok_inv_ok _ _ _ _ P) in Hpc'. discriminate.
+      * discriminate.
+      * pose proof (inv_pc s I c) as P. rewrite H in P.
+        destruct (pc_ok_inv_pub _ _ _ _ _ _ P) as (? & ? & _ & -> & _). discriminate.
+      * (* visit: p enters x's map *)
+        assert (p = c) by (destruct H1 as [->|[-> _]]; cbn in Hl; now apply Nat.eqb_eq in Hl). subst p.
+        unfold start_visit in Hpc'. cbn [r_cs with_cs] in Hpc'.
+        rewrite (pc_upd2 _ _ _ _ (fun st => set_rd st (c :: c_rd st))) in Hpc' by (intro; reflexivity).
+        rewrite upd_same in Hpc'. cbn in Hpc'. inversion Hpc'; subst e0 t c' todo rest.
+        destruct (total_trans_p s l _ x sub c n I T) as [Hle|(El & e1 & todo1 & rest1 & fs1 & Hpc1 & _)].
+        -- assert (Z0 : total (r_cs s x) sub (c, n) = 0%nat).
+           { eapply (o_pub s O c e n rem x sub); [rewrite H; now left | assumption]. }
+           lia.
+        -- rewrite H in Hpc1. discriminate.
+      * (* visitend *)
+        rewrite (pc_upd2 _ _ _ _ (fun st => set_rd st (remove_conn c (c_rd st)))) in Hpc' by (intro; reflexivity).
+        rewrite upd_same in Hpc'. cbn in Hpc'.
+        pose proof (inv_pc s I c) as P. rewrite H in P.
+        destruct (pc_ok_inv_visit _ _ _ _ _ _ _ P) as (? & ? & ? & _ & -> & _). discriminate.
+      * (* send: the entry just handled is not in the tail *)
+        rewrite (pc_upd2 _ _ _ _ (send_if_match (r_buf s) e0 t sub0 fs)) in Hpc' by (intro; apply ctl_send_if_match).
+        rewrite upd_same in Hpc'. cbn in Hpc'. inversion Hpc'; subst e0 t c' todo0 rest0.
+        pose proof (inv_pc s I c) as P. rewrite H in P.
+        destruct (pc_ok_inv_visit _ _ _ _ _ _ _ P) as (n' & rem & id & Et & _ & _ & _ & _ & _ & _ & NDt & _).
+        cbn in NDt. inversion NDt as [|? ? Hnotin _]; subst.
+        assert (Z0 : total (r_cs s x) sub (c, n) = 0%nat).
+        { eapply (o_visit s O c e n x _ _ sub H). cbn. now right. }
+        destruct (total_trans_p s (LRun c) _ x sub c n I T) as [Hle|(_ & e1 & todo1 & rest1 & fs1 & Hpc1 & _)]; [lia|].
+        rewrite H in Hpc1. inversion Hpc1; subst. contradiction.
+      * pose proof (inv_pc s I c) as P. rewrite H in P. destruct (pc_ok_inv_unsuball _ _ _ P) as [-> _]. discriminate.
+    + destruct (ctl_fields _ _ (trans_ctl_other s l s' p T Hl)) as (Epc & _). rewrite Epc in Hpc'.
+      pose proof (o_visit s O p e n x todo rest sub Hpc' Hin) as Z0.
+      destruct (total_trans_p s l s' x sub p n I T) as [Hle|(El & _)]; [lia|].
+      subst l. cbn in Hl. now rewrite Nat.eqb_refl in Hl.
+  - (* connections still to be visited have no copy yet *)
+    intros p e n rem x sub Hin' Hx.
+    assert (Keep : forall rem2, In (IPub e (p, n) rem2) (c_pc (r_cs s p)) -> In x rem2 ->
+                   (forall e1 todo1 rest1 fs1, c_pc (r_cs s p) <> IVisit e1 (p, n) x ((sub, fs1) :: todo1) :: rest1) ->
+                   total (r_cs s' x) sub (p, n) = 0%nat).
+    { intros rem2 Hin Hx2 Hno. pose proof (o_pub s O p e n rem2 x sub Hin Hx2) as Z0.
+      destruct (total_trans_p s l s' x sub p n I T) as [Hle|(_ & e1 & todo1 & rest1 & fs1 & Hpc1 & _)]; [lia|].
+      exfalso. eapply Hno. eassumption. }
+    destruct (label_of_conn p l) eqn:Hl.
+    + inversion T; subst; cbn [label_of_conn] in Hl; try discriminate;
+        try (apply Hact in Hl; subst p); cbn [r_cs with_cs] in Hin'; rewrite ?upd_same in Hin'; cbn in Hin'.
+      * (* op *) exfalso. destruct o; cbn in Hin'; [destruct (reg_get c (r_reg s)) | destruct (reg_get c (r_reg s)) | | |];
+          cbn in Hin'; intuition discriminate.
+      * apply (Keep rem); [rewrite H; now right | assumption | intros; rewrite H; discriminate].
+      * apply (Keep rem); [rewrite H; now right | assumption | intros; rewrite H; discriminate].
+      * apply (Keep rem); [rewrite H; now right | assumption | intros; rewrite H; discriminate].
+      * apply (Keep rem); [rewrite H; now right | assumption | intros; rewrite H; discriminate].
+      * apply (Keep rem); [rewrite H; now right | assumption | intros; rewrite H; discriminate].
+      * apply (Keep rem); [rewrite H; now right | assumption | intros; rewrite H; destruct i; cbn in H0; try contradiction; discriminate].
+      * (* pubbegin: a fresh tag *)
+        destruct Hin' as [E|Hin'].
+        -- inversion E; subst e0 n rem.
+           assert (Z0 : total (r_cs s x) sub (c, c_ctr (r_cs s c)) = 0%nat).
+           { apply fresh_total; [assumption|]. unfold tag_lt. cbn. lia. }
+           destruct (total_trans_p s (LRun c) _ x sub c (c_ctr (r_cs s c)) I T) as [Hle|(_ & e1 & todo1 & rest1 & fs1 & Hpc1 & _)]; [lia|].
+           rewrite H in Hpc1. discriminate.
+        -- apply (Keep rem); [rewrite H; now right | assumption | intros; rewrite H; discriminate].
+      * apply (Keep rem); [rewrite H; now right | assumption | intros; rewrite H; discriminate].
+      * (* visit *)
+        assert (p = c) by (destruct H1 as [->|[-> _]]; cbn in Hl; now apply Nat.eqb_eq in Hl). subst p.
+        unfold start_visit in Hin'. cbn [r_cs with_cs] in Hin'.
+        rewrite (pc_upd2 _ _ _ _ (fun st => set_rd st (c :: c_rd st))) in Hin' by (intro; reflexivity).
+        rewrite upd_same in Hin'. cbn in Hin'.
+        destruct Hin' as [E|[E|Hin']]; [discriminate | |].
+        -- inversion E; subst e0 t rem. apply remove_conn_In in Hx as [_ Hx].
+           apply (Keep rem0); [rewrite H; now left | assumption | intros; rewrite H; discriminate].
+        -- apply (Keep rem); [rewrite H; now right | assumption | intros; rewrite H; discriminate].
+      * (* visitend *)
+        rewrite (pc_upd2 _ _ _ _ (fun st => set_rd st (remove_conn c (c_rd st)))) in Hin' by (intro; reflexivity).
+        rewrite upd_same in Hin'. cbn in Hin'.
+        apply (Keep rem); [rewrite H; now right | assumption |].
+        intros e1 todo1 rest1 fs1 E. rewrite H in E. discriminate.
+      * (* send *)
+        rewrite (pc_upd2 _ _ _ _ (send_if_match (r_buf s) e0 t sub0 fs)) in Hin' by (intro; apply ctl_send_if_match).
+        rewrite upd_same in Hin'. cbn in Hin'. destruct Hin' as [E|Hin']; [discriminate|].
+        pose proof (inv_pc s I c) as P. rewrite H in P.
+        destruct (pc_ok_inv_visit _ _ _ _ _ _ _ P) as (n' & rem' & id & Et & Er & _ & _ & _ & Hnotin & _).
+        subst rest. destruct Hin' as [E|[E|[]]]; [|discriminate]. inversion E; subst e0 n' rem'.
+        apply (Keep rem); [rewrite H; right; now left | assumption |].
+        intros e1 todo1 rest1 fs1 E1. rewrite H in E1. inversion E1; subst. contradiction.
+      * apply (Keep rem); [rewrite H; now right | assumption | intros; rewrite H; discriminate].
+    + destruct (ctl_fields _ _ (trans_ctl_other s l s' p T Hl)) as (Epc & _). rewrite Epc in Hin'.
+      pose proof (o_pub s O p e n rem x sub Hin' Hx) as Z0.
+      destruct (total_trans_p s l s' x sub p n I T) as [Hle|(El & _)]; [lia|].
+      subst l. cbn in Hl. now rewrite Nat.eqb_refl in Hl.
+Qed.
+
+Theorem OInv_reachable buf s : reachable buf s -> OInv s.
+Proof.
+  intro R. induction R as [|s l R IH]; [apply OInv_init|].
+  destruct (step_trans s l) as [E|T]; [now rewrite E|].
+  eapply OInv_trans; [eapply Inv_reachable | eapply DInv_reachable | |]; eassumption.
 Qed.
